@@ -338,3 +338,23 @@ def e2e_two_uploads(r, n):
                    (la, r.randrange(250), typ, s if r.random() < 0.5 else 7, s if r.random() < 0.5 else 7,
                     sched, lb, start))
     return out
+
+
+def e2e_slow(r, n):
+    """slow but successful CON transfers: the first 3 or 4 transmissions of every request are lost
+    (MAX_RETRANSMIT is 4), the next one and all responses arrive; with 4 and more blocks the
+    transfer lasts longer than MAX_TRANSMIT_WAIT (93 s) although no exchange is abandoned, so the
+    lg_xmit / lg_srcv / lg_crcv expiry timers must be refreshed by progress"""
+    out = []
+    for i in range(n):
+        s = r.choice([2, 3, 4, 5, 6])
+        c = chunk(s)
+        k = r.randrange(4, 8)
+        ln = k * c + r.choice([-1, 0, 1, r.randrange(-c + 1, c)])
+        nreq = (ln + c - 1) // c + 1
+        sched = ""
+        for _ in range(nreq):
+            sched += "x" * r.choice([3, 4, 4, 4]) + ".."
+        d = "b1s" if i % 2 == 0 else "b2s"
+        out.append(e2e_line(d, ln, r.randrange(250), 0, s, 7, 7, r.randrange(2), r.randrange(2), 0, sched))
+    return out
